@@ -78,6 +78,9 @@ pub enum Ev {
     /// a client attaches while subscription `sub` is in the middle of a batch: its events are
     /// already out (to the subscribers that existed), its transaction is not committed yet
     AttachMidBatch { sub: usize, mode: u8 },
+    /// a client attaches (and finishes its catch-up) in the instant after subscription `sub`
+    /// handed out the first event of a batch and before it did anything else
+    AttachAfterEvent { sub: usize },
     /// the subscriber node stops and starts again (C13). kind: 0 = graceful (production
     /// order: tripwire, tasks, `late` transaction while subscriptions drain, drop_handles),
     /// 1 = killed at this instant, 2 = killed in the middle of a graceful shutdown (after the
@@ -196,6 +199,12 @@ impl World {
         std::fs::create_dir_all(dir)?;
         verif::gates_clear();
         verif::set_buffer_deadline_ms(3_600_000);
+        // tuning knob varied per run: with the production capacity (10240) a catch-up read never
+        // stalls in the middle of its snapshot / change-log scan for results this small
+        {
+            let mut r = Rng::new(seed).fork("t4-knobs");
+            verif::set_catchup_buffer(if r.chance(0.5) { *r.pick(&[1usize, 1, 2, 4]) } else { 10240 });
+        }
         let s = Node::boot(0, dir.join("s"), seeded_actor(seed, 0), Knobs::default()).await?;
         let p = Node::boot(1, dir.join("p"), seeded_actor(seed, 1), Knobs::default()).await?;
         for n in [&s, &p] {
@@ -215,6 +224,15 @@ impl World {
             .subs_manager()
             .get(&self.subs[idx].id)
             .ok_or_else(|| SimError::Harness(format!("subscription handle gone: {}", self.subs[idx].sql)))
+    }
+
+    /// The simulator's own read-only connection to a subscription's database (its pool may be
+    /// exhausted by stalled catch-ups, which is the clients' problem, not the oracle's).
+    fn sub_conn(&self, id: uuid::Uuid) -> R<rusqlite::Connection> {
+        let p = self.s.dir.join("subscriptions").join(id.as_simple().to_string()).join("sub.sqlite");
+        let c = rusqlite::Connection::open_with_flags(&p, rusqlite::OpenFlags::SQLITE_OPEN_READ_ONLY)?;
+        c.busy_timeout(Duration::from_secs(10))?;
+        Ok(c)
     }
 
     async fn query_node(&self, sql: &str) -> R<Vec<String>> {
@@ -365,7 +383,7 @@ impl World {
         }
         // everything the matcher emitted for this batch is now in its change log
         let max_id: u64 = {
-            let conn = self.h(idx)?.pool().get().await.map_err(|e| SimError::Harness(e.to_string()))?;
+            let conn = self.sub_conn(self.subs[idx].id)?;
             conn.query_row("SELECT COALESCE(MAX(id), 0) FROM changes", [], |r| r.get(0))?
         };
         let start = Instant::now();
@@ -417,7 +435,7 @@ impl World {
         let expected = self.query_node(&sql).await?;
         // materialised rows
         let materialised: Vec<String> = {
-            let conn = self.h(idx)?.pool().get().await.map_err(|e| SimError::Harness(e.to_string()))?;
+            let conn = self.sub_conn(self.subs[idx].id)?;
             let ncols = self.h(idx)?.parsed_columns().len();
             let cols: Vec<String> = (0..ncols).map(|i| format!("col_{i}")).collect();
             let mut st = conn.prepare(&format!("SELECT {} FROM query", cols.join(",")))?;
@@ -593,7 +611,8 @@ impl World {
         if self.clients.is_empty() {
             return Ok(Ok(()));
         }
-        let ci = ci % self.clients.len();
+        // (1_000_000 = the client attached last)
+        let ci = if ci == 1_000_000 { self.clients.len() - 1 } else { ci % self.clients.len() };
         let target = self.subs[self.clients[ci].sub].last_change;
         let sql = self.subs[self.clients[ci].sub].sql.clone();
         if self.clients[ci].events == 0 && target > self.clients[ci].attach_max {
@@ -629,10 +648,25 @@ impl World {
                         break;
                     }
                 } else if start.elapsed() > Duration::from_secs(10) {
+                    // five or more clients of one subscription that stopped reading in the middle of
+                    // their catch-up hold its whole read pool (5 connections): nobody can make
+                    // progress until they read on - slow clients' doing, not a continuity defect
+                    let (sub_of, c_last, c_mode) = (c.sub, c.last, c.mode);
+                    let stalled_others = self
+                        .clients
+                        .iter()
+                        .enumerate()
+                        .filter(|(j, o)| *j != ci && o.sub == sub_of && !o.ended && !(o.got_eoq || o.mode != 0) )
+                        .count()
+                        + self.clients.iter().enumerate().filter(|(j, o)| *j != ci && o.sub == sub_of && !o.ended && (o.got_eoq || o.mode != 0) && o.last < target).count();
+                    if stalled_others >= 4 && verif::catchup_buffer() < 10240 {
+                        self.stats.probe("c12.stall-with-read-pool-held-by-stalled-clients");
+                        return Ok(Ok(()));
+                    }
                     return Ok(Err(vio(
                         "C12",
                         "attached-stream-stalled-behind-the-subscription",
-                        json!({"sql": sql, "client_last": c.last, "subscription_last": target, "mode": c.mode}),
+                        json!({"sql": sql, "client_last": c_last, "subscription_last": target, "mode": c_mode}),
                     )));
                 }
                 tokio::time::sleep(Duration::from_micros(300)).await;
@@ -865,7 +899,7 @@ impl World {
                     let expected = self.query_node(&sub.sql).await?;
                     let mut stale = None;
                     if let Some(h) = self.s.agent.subs_manager().get(&sub.id) {
-                        let conn = h.pool().get().await.map_err(|e| SimError::Harness(e.to_string()))?;
+                        let conn = self.sub_conn(h.id())?;
                         let ncols = h.parsed_columns().len();
                         let cols: Vec<String> = (0..ncols).map(|i| format!("col_{i}")).collect();
                         let mut st = conn.prepare(&format!("SELECT {} FROM query", cols.join(",")))?;
@@ -900,7 +934,7 @@ impl World {
             sub.pending.clear();
             // its change log must lead from what the subscriber saw to the present result
             let max_id: u64 = {
-                let conn = handle.pool().get().await.map_err(|e| SimError::Harness(e.to_string()))?;
+                let conn = self.sub_conn(handle.id())?;
                 conn.query_row("SELECT COALESCE(MAX(id), 0) FROM changes", [], |r| r.get(0))?
             };
             if max_id < sub.last_change {
@@ -1095,6 +1129,63 @@ impl World {
                 }
                 self.flush_collect(idx, before).await
             }
+            Ev::AttachAfterEvent { sub } => {
+                self.stats.ev("AttachAfterEvent");
+                if self.subs.is_empty() {
+                    return Ok(Ok(()));
+                }
+                let idx = *sub % self.subs.len();
+                if self.subs[idx].dead {
+                    return Ok(Ok(()));
+                }
+                verif::gate_release("bcast");
+                self.s.quiesce().await?;
+                let table = TEMPLATES[self.subs[idx].template % TEMPLATES.len()].1;
+                let before = verif::batches_done();
+                verif::gate_arm("matcher-after-event");
+                if self.h(idx)?.changes_tx().send(sentinel(table)).await.is_err() {
+                    verif::gate_release("matcher-after-event");
+                    return Ok(Err(vio("C11", "matcher-stopped", json!({"sql": self.subs[idx].sql}))));
+                }
+                // parked after its first event - or the batch produced no event at all
+                let start = Instant::now();
+                let mut parked = false;
+                loop {
+                    if verif::gate_parked("matcher-after-event") > 0 {
+                        parked = true;
+                        break;
+                    }
+                    if verif::batches_done() != before {
+                        break;
+                    }
+                    if start.elapsed() > Duration::from_secs(30) {
+                        verif::gate_release("matcher-after-event");
+                        return Ok(Err(vio("C11", "matcher-stopped", json!({"sql": self.subs[idx].sql, "note": "batch neither produced an event nor finished"}))));
+                    }
+                    tokio::time::sleep(Duration::from_micros(200)).await;
+                }
+                if parked {
+                    self.stats.fault("attach-right-after-an-event-was-handed-out");
+                    // let the event reach the broadcaster before the newcomer subscribes
+                    tokio::time::sleep(Duration::from_millis(15)).await;
+                    let r = self.attach(idx, 0, 0).await?;
+                    if let Err(v) = r {
+                        verif::gate_release("matcher-after-event");
+                        return Ok(Err(v));
+                    }
+                    // the newcomer is a fast reader: it takes its whole snapshot now, so that its
+                    // catch-up decides "am I caught up?" inside this window
+                    let r2 = self.client_read(1_000_000, 100_000, false).await?;
+                    tokio::time::sleep(Duration::from_millis(20)).await;
+                    verif::gate_release("matcher-after-event");
+                    if let Err(v) = r2 {
+                        return Ok(Err(v));
+                    }
+                } else {
+                    verif::gate_release("matcher-after-event");
+                }
+                self.flush_collect(idx, before).await
+            }
             Ev::ClientRead { client, n } => {
                 self.stats.ev("ClientRead");
                 if *n > 0 {
@@ -1219,6 +1310,15 @@ pub fn generate_for(seed: u64, check: &str) -> Vec<Ev> {
             }
             continue;
         }
+        if !lifecycle && r.chance(0.05) {
+            evs.push(Ev::Write { node: 0, stmts: g.gen_write(&wl, 0) });
+            evs.push(Ev::AttachAfterEvent { sub: r.usize_below(3) });
+            // the client reads to the end after more has happened
+            evs.push(Ev::Write { node: 0, stmts: g.gen_write(&wl, 0) });
+            evs.push(Ev::Flush);
+            evs.push(Ev::ClientRead { client: 1_000_000, n: 0 });
+            continue;
+        }
         if !lifecycle && r.chance(0.08) {
             evs.push(Ev::Write { node: 0, stmts: g.gen_write(&wl, 0) });
             evs.push(Ev::AttachMidBatch { sub: r.usize_below(3), mode: r.below(2) as u8 });
@@ -1283,6 +1383,7 @@ pub async fn run_events(seed: u64, events: &[Ev], base: &Path, tag: &str) -> R<R
             Ev::Attach { mode, .. } => format!("T{mode}"),
             Ev::ClientRead { n, .. } => format!("c{}", (*n).min(2)),
             Ev::AttachMidBatch { mode, .. } => format!("M{mode}"),
+            Ev::AttachAfterEvent { .. } => "N".into(),
             Ev::RestartS { kind, late, .. } => format!("X{kind}{}", late.is_some() as u8),
         };
         fnv(&mut sh, s.as_bytes());
